@@ -349,6 +349,34 @@ Theorem C06_translated_ReadWithSize_is_read_with_size :
   end.
 Proof. exact GoLiteC06_ReadWithSize.ReadWithSize_is_read_with_size. Qed.
 
+(* the oracle used above for indexes.OffsetAndSize.FromBytes answers exactly as the TRANSLATED FromBytes of the indexes
+   package does (Generated/GoLiteC01.v, proved equal to dec_os in Properties/C01.v): no assumption about that function
+   is left in the theorem above *)
+Require YF.Generated.GoLiteC01 YF.GoLiteC01_Codec YF.C01_IndexAll.
+Lemma C06_FromBytes_oracle_is_the_translated_FromBytes :
+  forall (decompress : list N -> option (list N)) (file : list N) (o0 s0 : Z) (bs : list N),
+  Forall (fun b => (b < 256)%N) bs ->
+  GoLite.call GoLiteC01.prog GoLite.no_ext 2 "OffsetAndSize.FromBytes"%string
+    [GoLite.VStruct [("Offset"%string, GoLite.VInt o0); ("Size"%string, GoLite.VInt s0)]; GoLite.VInts (map Z.of_N bs)]
+  = match GoLiteC06_ReadWithSize.ext_ll decompress file
+            "github.com/rpcpool/yellowstone-faithful/indexes.OffsetAndSize.FromBytes"%string
+            [GoLite.VStruct [("Offset"%string, GoLite.VInt o0); ("Size"%string, GoLite.VInt s0)]; GoLite.VInts (map Z.of_N bs)] with
+    | Some v => GoLite.RRet v
+    | None => GoLite.RStuck
+    end.
+Proof.
+  intros decompress file o0 s0 bs Hb.
+  pose proof (GoLiteC01_Codec.FromBytes_is_dec_os GoLiteC01.prog GoLiteC01.prog_BtoUint24 GoLiteC01.prog_BtoUint48
+             GoLiteC01.prog_cloneAndPad GoLiteC01.prog_OffsetAndSize_FromBytes GoLite.no_ext 2 (GoLite.VInt o0) (GoLite.VInt s0) bs
+             (le_n 2) Hb) as HF.
+  unfold YF.GoLiteC04_Proofs.zs in HF. rewrite HF. clear HF.
+  unfold GoLiteC06_ReadWithSize.ext_ll, C01_IndexAll.dec_os. rewrite map_length.
+  destruct (Nat.eqb (List.length bs) 9); [|reflexivity].
+  unfold GoLiteC06_ReadWithSize.os_val, ptr_dec. cbn [fst snd].
+  change (GoLiteC06_Codec.ns (map Z.of_N bs)) with (GoLiteC06_Codec.ns (GoLiteC06_Codec.zs bs)).
+  rewrite GoLiteC06_Codec.ns_zs. reflexivity.
+Qed.
+
 (* the translated reader RUNS: a file of two records written as the model's put writes them (identity compression); the
    second record is read back with its entry and the pointer to the first; a size one byte off is an error *)
 Example C06_translated_ReadWithSize_runs :
